@@ -130,10 +130,10 @@ class no_cache(object):
                 stats[MISS] += 1
                 return result
 
-            # look in archive
-            if cache.archived():
-                cache.load(key)
             try:
+                # look in archive
+                if cache.archived():
+                    cache.load(key)
                 result = cache[key]
                 cache.clear()
                 stats[LOAD] += 1
